@@ -481,3 +481,88 @@ theorem unready_fold (cc : Name) : ∀ (xs : List Name) (s : classChanged.St), x
         have := j2 c e
         rw [h1a, getD_map_of_ne (unreadyIf_name cc) _ _ hcx] at this
         exact this
+
+theorem abs_map_unreadyIf (cc : Name) (h : Heap) :
+    abs (h.map (unreadyIf cc)) = invalidateEx (abs h) cc := by
+  unfold abs invalidateEx
+  rw [List.map_map, List.map_map]
+  apply List.map_congr_left
+  intro g _
+  simp only [Function.comp]
+  unfold unreadyIf
+  rw [inherits_eq]
+  by_cases hp : g.precedence = []
+  · -- not ready: nothing to see for the hand model
+    by_cases hc : (g.name != cc && decide (cc ∈ g.inherit)) = true
+    · simp [hc, unready_eq, absEntry, absInh, absDef, hp]
+    · simp [hc, absEntry, absInh, hp]
+  · by_cases hn : g.name = cc
+    · simp [hn, absEntry, absInh, hp]
+    · by_cases hm : cc ∈ g.inherit
+      · simp [hn, hm, unready_eq, absEntry, absInh, absDef, hp]
+      · simp [hn, hm, absEntry, absInh, hp]
+
+/-- classChanged, seen from the hand model: the classes that have `cc` on their list (other than
+    `cc`) are marked not ready, then the readiness loop runs; the result is a fixed point again. -/
+theorem classChanged_spec (fuel : Nat) (cc : Name) (h : Heap) (hn : NodupNames h) (hfix : Fix (abs h))
+    (hfuel : h.length < fuel) :
+    (∃ cs : List Name, abs (classChanged fuel cc h) = cs.foldl tryReady (invalidateEx (abs h) cc)) ∧
+    Fix (abs (classChanged fuel cc h)) ∧
+    NodupNames (classChanged fuel cc h) ∧ (classChanged fuel cc h).allClasses = h.allClasses := by
+  unfold classChanged classChanged.body
+  simp only []
+  rw [forRange_fold (unreadyStep cc)]
+  rotate_left
+  · intro c s
+    left
+    unfold unreadyStep
+    by_cases hc : (c != cc && Inherits (s.heap.getD c) cc) = true
+    · simp [hc]
+    · simp [hc]
+  obtain ⟨u1, u2⟩ := unready_fold cc h.allClasses { heap := h, changed := false } hn hn
+  have hmap : (h.allClasses.foldl (unreadyStep cc) { heap := h, changed := false }).heap = h.map (unreadyIf cc) := by
+    rw [u1]
+    apply List.map_congr_left
+    intro g hg
+    have : g.name ∈ Heap.allClasses h := by
+      simp only [Heap.allClasses, List.mem_map]; exact ⟨g, hg, rfl⟩
+    simp [this]
+  have hall : Heap.allClasses (h.map (unreadyIf cc)) = h.allClasses := by
+    simp only [Heap.allClasses, List.map_map]
+    apply List.map_congr_left
+    intro g _
+    simp [unreadyIf_name]
+  have hn' : NodupNames (h.map (unreadyIf cc)) := by unfold NodupNames; rw [hall]; exact hn
+  simp only [Ctl.seq]
+  generalize hs1 : h.allClasses.foldl (unreadyStep cc) { heap := h, changed := false } = s1 at *
+  cases hch : s1.changed with
+  | true =>
+    simp only [if_true, Ctl.state]
+    rw [hmap]
+    have hlen : nr (abs (h.map (unreadyIf cc))) < fuel := by
+      have := nr_le_length (abs (h.map (unreadyIf cc)))
+      simp only [abs, List.length_map] at this
+      simp only [abs]
+      omega
+    obtain ⟨⟨cs, m1⟩, m2, m3, m4⟩ := makeClassesReady_spec fuel (h.map (unreadyIf cc)) hn' hlen
+    exact ⟨⟨cs, by rw [m1, abs_map_unreadyIf]⟩, m2, m3, by rw [m4, hall]⟩
+  | false =>
+    simp only [Bool.false_eq_true, if_false, Ctl.state]
+    rw [hmap]
+    -- nothing was marked: the table is unchanged
+    obtain ⟨_, hnone⟩ := u2 hch
+    have hid : h.map (unreadyIf cc) = h := by
+      conv => rhs; rw [← List.map_id h]
+      apply List.map_congr_left
+      intro g hg
+      have hgm : g.name ∈ Heap.allClasses h := by
+        simp only [Heap.allClasses, List.mem_map]; exact ⟨g, hg, rfl⟩
+      have := hnone g.name hgm
+      simp only [] at this
+      rw [getD_of_mem hn hg] at this
+      unfold unreadyIf
+      simp [this]
+    rw [hid]
+    refine ⟨⟨[], ?_⟩, hfix, hn, rfl⟩
+    rw [← abs_map_unreadyIf, hid]
+    rfl
